@@ -22,7 +22,7 @@ CLAIMS = {
  'C14': ("C14_mst: mst_with performs EXACTLY n(n-1)/2 index computations for every valid matrix, any comparison behaviour, both build modes, any prior state (hence the bound); C14_small; C14_dispatch (generated table). The nnchain bound is NOT proved: it rests on the exact equality of the model's counter with the kodama_verif hook counter on every generated case plus the oracle checking 10n^2+50n on the real crate on adversarial inputs (sorted, reverse-sorted, all ties, geometric progressions) up to n=400 quick / 2000 thorough.",
          "Lean kernel + standard axioms; Active-list refinement and Mat index lemmas proved; the counter placement in the model is hand-modelled and tied to the hook counter by exact comparison; hook: thread-local counter in matrix_to_condensed_idx under cfg(kodama_verif).",
          "Lean 4 theorem (exact count for mst) + exact counter correspondence with the instrumented crate + bound oracle"),
- 'C01': ("C01_relabel (any raw spanning tree -> WellFormed, via union-find refinement + forest lemma 'effective unions are permutation invariant'), C01_mst, C01_primitive (all 7 methods), C01_linkage_single: for every valid matrix (2<=n<2^31), both build modes, every prior state and ANY behaviour of the number operations the returned dendrogram is Spec.WellFormed with observations = n; C01_sizes_pos; n<=1 empty (C12_empty); any greedy-valid dendrogram of the spec is well-formed (C06_wellFormed). NOT proved: that nnchain's and generic's raw steps form a spanning tree (needs chain/heap invariants) - for those entry points: bit-exact correspondence + independent structural validator on every dendrogram.",
+ 'C01': ("C01_relabel (any raw spanning tree -> WellFormed, via union-find refinement + forest lemma 'effective unions are permutation invariant'), C01_mst, C01_primitive (all 7 methods), C01_linkage_single: for every valid matrix (2<=n<2^31), both build modes, every prior state and ANY behaviour of the number operations the returned dendrogram is Spec.WellFormed with observations = n; C01_sizes_pos; n<=1 empty (C12_empty); any greedy-valid dendrogram of the spec is well-formed (C06_wellFormed). C01_generic: generic_with (all 7 methods) under explicit value hypotheses (a set G of non-NaN values below max_value closed under the update; proved closed for single/complete). NOT proved: nnchain's raw steps form a spanning tree (chain invariant, in progress) - there: bit-exact correspondence + independent structural validator on every dendrogram, fresh and reused objects.",
          'Lean kernel + standard axioms; find() modelled without path compression; sort_by modelled as stable mergeSort; correspondence harness for the hand-modelled loops.',
          'Lean 4 theorems (union-find refinement, forest lemma, loop invariants of mst/primitive) + bit-exact correspondence + structural validator'),
  'C02': ("All seven generated Lance-Williams formulas proved equal to the documented criteria over any linearly ordered field (exact arithmetic): C02_single/complete(_criterion), C02_average, C02_weighted(_tree), C02_median(_tree), C02_centroid, C02_ward (+ _recurrence cores), C02_spec_invariant and C02_greedy_heights(_closed): in ANY greedy-valid run of the label-based spec every height is the criterion of the two merged clusters computed from the ORIGINAL matrix. A wrong coefficient / swapped size / Ward dropped from on_squares breaks the build (7 mutations confirmed). NOT proved: the float gap (measured against 1e-9/1e-3 by the criterion oracle on the real crate); that each Rust algorithm's run is greedy-valid (C03).",
@@ -37,7 +37,7 @@ CLAIMS = {
  'C11': ('C11_spec (greedy validity is equivariant under renumbering: same heights, sizes, and cluster families as sets), C11_spec_unique (with C06_unique: on tie-free input the hierarchy of ANY greedy-valid dendrogram of the permuted matrix is the image of that of the original), C11_lwSymm (symmetry of all seven generated formulas from commutativity of + and x, true of IEEE floats; single/complete need trichotomy). NOT proved: that each entry point is greedy-valid (C03). Oracle: permuted vs unpermuted runs of the real crate on certified tie-free inputs, families as observation sets and heights within tolerance.',
          'Lean kernel + standard axioms; commutativity laws for floats trusted.',
          'Lean 4 equivariance theorem on the spec + permutation oracle + bit-exact correspondence'),
- 'C12': ('C12_empty (n<=1, all entry points), C12_mst_total and C12_primitive_total: on every valid matrix (2<=n<2^31), both build modes, any prior state and ANY behaviour of the number operations the call returns normally or stops in the one documented panic (NaN reaching the sort) - no index out of bounds, failed assertion, unwrap on None, usize overflow or exhausted fuel is reachable; C12_mst_loop_total. Heap operations proved panic-free/terminating separately (Lemmas/HeapInv*). NOT proved: nnchain and generic totality/termination; finiteness/non-negativity of heights under rounding. Those: correspondence in BOTH build profiles (model fuel exhaustion = hang), watchdog, finite/non-negative oracle on tie-saturated, zero, negative, 1e+-150, duplicate, collinear inputs.',
+ 'C12': ('C12_empty (n<=1, all entry points), C12_mst_total and C12_primitive_total: on every valid matrix (2<=n<2^31), both build modes, any prior state and ANY behaviour of the number operations the call returns normally or stops in the one documented panic (NaN reaching the sort) - no index out of bounds, failed assertion, unwrap on None, usize overflow or exhausted fuel is reachable; C12_mst_loop_total. C12_generic_total / C12_generic_ok: generic_with is total incl. termination of the repair loop within n+2 rounds, under GoodSet/UpdClosed value hypotheses (values non-NaN and strictly below max_value - necessary: with +inf or f64::MAX entries the real crate panics in dev and hangs in release, outside the domain of the property). NOT proved: nnchain totality/termination (in progress); finiteness/non-negativity of heights under rounding. Those: correspondence in BOTH build profiles (model fuel exhaustion = hang), watchdog, finite/non-negative oracle on tie-saturated, zero, negative, 1e+-150, duplicate, collinear inputs.',
          'Lean kernel + standard axioms; Active-list refinement, Mat index lemmas, relabel totality proved; the two harness builds (dev: debug assertions + overflow checks; release).',
          'Lean 4 totality theorems (mst, primitive) + two-profile correspondence + watchdog/finite oracle'),
  'C17': ('Full statement proved over data re-translated from the four source files on every run (finite configuration, decide/rfl over the whole table): C17_enum (+pointwise), C17_struct (names, order, types, computed x86-64 layout 0/8/16/24 size 32), C17_fns (6 prototypes, ABI-level), C17_len (Go expectedLen = Rust dis_len for all n), C17_go_calls, C17_rust_bodies. 23 mutations of headers/Rust/Go confirmed to break a named theorem, 4 ABI-neutral edits confirmed not to.',
@@ -64,6 +64,9 @@ CLAIMS = {
  'C18': ("Modelled logic proved: C18_order / C18_order_jobs (for EVERY split tree and leaf order of the parallel evaluation the matrix is (Spec.pairs n).map dist), C18_layout (slot = C07 layout against the regenerated index expression), C18_bytes (byte-identical across schedules), C18_codec (LE round trip; length not multiple of 8 rejected), C18_method_parse / C18_method (exactly the seven names, via the translated FromStr; unknown => exit 1, no rows; none => single), C18_output(_rows/_records) (rows are exactly linkage's steps in order), C18_saved_bytes, C18_save_load(_rows), C18_load_reject. Observed, not proved: rayon, csv/serde/ryu/clap/byteorder, libm. Correspondence: the real binary built from the working tree, RAYON_NUM_THREADS in {1,2,3,8,16} x repeats, all method names + invalid names, generated and shipped CSVs; saved bytes, stdout rows, save->load and exit statuses compared with the model (bit-exact Haversine) and with an independent Rust linkage call.",
          "Lean kernel + standard axioms; rayon's ordered-collect contract; csv/serde/ryu/clap/byteorder; glibc libm shared with Lean's Float runtime (checked bit-exact every run); Word64 round-trip laws for Float.",
          'Lean 4 theorems on a schedule-parametric model + binary-level correspondence across thread counts + Rust linkage oracle'),
+ 'C03': ('C03_primitive_argmin_min (argmin returns a global minimum over live pairs), C03_primitive_update_spec (exact effect of the three-range update on the condensed matrix, via injectivity of the regenerated index), C03_primitive_mergeorder (the merges of primitive_with, labelled in merge order, ARE a greedy run of the independent label-based spec Spec.GreedyValid), C03_primitive_unsorted (centroid/median: the RETURNED dendrogram is greedy-valid), C03_primitive_of_monotone / C03_primitive_reducible (sorting methods under a named reducibility hypothesis), C03_primitive_single / C03_primitive_complete (unconditional from OrderLaws + trichotomy). NOT proved: nnchain, generic, mst ⇒ greedy-valid (mst via C04 in progress); reducibility of average/weighted/Ward is a hypothesis (true in exact arithmetic, false under float rounding); float tolerance. Those: bit-exact correspondence + greedy-replay oracle (naive Lance-Williams, minimum over live pairs within tolerance) on tie-saturated inputs, fresh and reused objects, both profiles.',
+         'Lean kernel + standard axioms; LwSymm (commutativity of + and x) and NoNaNRun hypotheses; translator for method.rs/condensed.rs; correspondence harness.',
+         'Lean 4 simulation theorem (primitive vs label-based spec) + greedy-replay oracle + bit-exact correspondence'),
 }
 NOT_YET = "check not built yet in this round (build in progress)"
 
